@@ -193,13 +193,17 @@ def check_case(rep, drv, case, rng=None):
         same = (sorted(map(repr, got)) == sorted(map(repr, want))) if unordered else (got == want)
         if not same:
             rep.fail('schemaless-leaves-differ', 'leaves %r, original %r' % (got[:6], want[:6]), replay)
-        if cdc == 'der':
+        if True:
+            # the guessed object re-encodes to the distinguished encoding, whichever form it was read from
             try:
                 again = der_encoder.encode(obj)
             except Exception as e:  # noqa
                 rep.fail('schemaless-reencode-' + codec.classify(e), 're-encoding the guessed object: %r' % (e,), replay)
                 continue
-            if again != der:
+            from harness import sigs
+            if again != der and cdc != 'der' and sigs.e3_applies(t, v):
+                rep.count('reencode-skipped-E3-region')    # the DER encoder itself drops the empty OPTIONAL member (finding E3, C02)
+            elif again != der:
                 rep.fail('schemaless-reencode-differs', 're-encoding %s, original %s' % (again.hex()[:120], der.hex()[:120]), replay)
         ml = model_leaves(drv, cdc, data)
         rep.corr_checked += 1
